@@ -1,12 +1,14 @@
 //! Checks of the sync2 group: C22 C23 C25.
+mod memstore;
 mod props;
+mod transport;
 
 fn main() {
     let ctx = engine::Ctx::from_args();
     match ctx.id.as_str() {
-        // "C22" => props::c22::run(ctx),
-        // "C23" => props::c23::run(ctx),
-        // "C25" => props::c25::run(ctx),
+        "C22" => props::c22::run(ctx),
+        "C23" => props::c23::run(ctx),
+        "C25" => props::c25::run(ctx),
         other => engine::harness_error(&format!("property {other} is not served by verif-sync2")),
     }
 }
